@@ -19,7 +19,9 @@ from . import c03
 
 REPS_QUICK = ["<a>", "<A N>", "</a>", "<b/>", "<a x/>", "k v", "k", "k v", "K $$w", "j (x  y",
               "# c", "", "%import p", "%import Q.r", "%define x y", "%include f", "j <v>", "m x$$",
-              "<b>", "</b>", "<a/ >", "</a/>", "<a n/ >"]
+              "<b>", "</b>", "<a/ >", "</a/>", "<a n/ >",
+              # characters at which str.splitlines() - but neither the parser nor a '\n'.join - ends a line
+              "k a\x0cb", "m x\u2028y z"]
 REPS_MORE = ["k # v", "k %v", "<a/ n/ >", "k $$$$", "%import p$$", "é É", "<é É>", "</é>", "k  v   w"]
 
 
